@@ -60,7 +60,7 @@ alarm. All {total} entries behave as listed (quick tier, seed 1; re-run after ev
     sec9 = f"""
 ## 9. Regressions planted by independent sub-agents (`/verif/seeded/`)
 
-Nine rounds of 20 fresh sub-agents (one per property and round) each got only the statement and quantifier of one
+Ten rounds of 20 fresh sub-agents (one per property and round) each got only the statement and quantifier of one
 property and a private scratch worktree of `/repo` (nothing from `/verif`), and were asked for a small, plausible
 change that breaks the property, keeps the 730 tests green and needs something specific to manifest; later rounds
 were additionally told what the earlier agents had done for that property and asked for a different root
@@ -74,7 +74,7 @@ numeric conversion details, copy versus reference, narrowed exception classes, s
 round eight: operations repeated in the same state, the ack flag, rare internal sub-types, node versus gateway
 version, counts of exactly 0 / 1 / 255, node or child id 0 / 254 / 255, clean-up paths, log calls that raise; round
 nine: shared helpers, highest / lowest sub-types, unusual containers and value types, rule edges, state-dependent
-defaults, identical consecutive messages, a second gateway object, the state after a swallowed exception). Every change
+defaults, identical consecutive messages, a second gateway object, the state after a swallowed exception; round ten: a free choice of root cause different from the nine before). Every change
 was confirmed by `tools/seeded.py` on a scratch worktree (demo passes on the unchanged code, the suite passes with
 the patch, the demo fails with the patch) before it was kept; the checks were then run against the patched
 worktree with `VERIF_REPO` (three seeds). `meta.json` of each entry records exactly what was run and the verdicts.
